@@ -43,8 +43,11 @@ ASSUMPTIONS = [
 ]
 BUDGET = {"quick": 60, "thorough": 1200}
 
-MARKER_RE = re.compile(r"^([-*+]|>.*|#+|[0-9]+[.)]|-{2,}|=+|\*{3,}|_{3,}|`{3,}[^`]*|~{3,}.*)$")
-RULE_RE = re.compile(r"^(-{3,}|\*{3,}|_{3,})$")
+# words that may carry a protecting backslash at a line start: list/quote/heading markers, rule and underline characters
+# (also as the first of several: `** *`), fences, table delimiter cells (`-|`, `:-:`, and `|` or `-x` before/under one)
+MARKER_RE = re.compile(r"^([-*+]|>.*|#+|[0-9]+[.)]|-{2,}|=+|\*{2,}|_+|`{3,}[^`]*|~{3,}.*|[|:\-]*-[|:\-]*|\||:?-.*)$")
+# ... and on the first line of a paragraph (a line that would be a thematic break, alone or with more of the same)
+RULE_RE = re.compile(r"^(-+|\*+|_+)$")
 LENS = (1, 2, 3, 5, 9)
 HAZ = ["-", "+", "*", ">", "#", "##", "1.", "2)", "10.", "---", "***", "===", "```", "~~~", "|", "[x]", "+1", "#tag", "1.x", "-x"]
 PLAINW = ["a", "it", "the", "alpha", "Gamma,", "word.", "longerword", "Supercalifragilistic", "42", "3.14", "e.g.", "naïve", "中文", "x=y", "(p)", "end.", "done!"]
@@ -62,7 +65,7 @@ def _istag(t: str) -> bool:
 # The predicates
 
 
-def scan_lines(bodies: list[str], tokens: list[str], markdown: bool) -> tuple[list[list[tuple[str, str]]] | None, str]:
+def scan_lines(bodies: list[str], tokens: list[str], markdown: bool, starts_line: bool = False) -> tuple[list[list[tuple[str, str]]] | None, str]:
     """Match output line bodies against the expected token sequence.
     Returns per line a list of (emitted, original) tokens, or (None, reason)."""
     k = 0
@@ -80,7 +83,7 @@ def scan_lines(bodies: list[str], tokens: list[str], markdown: bool) -> tuple[li
                 em = t
             else:
                 esc = None
-                if markdown and pos == 0 and MARKER_RE.match(t) and (i > 0 or RULE_RE.match(t)):
+                if markdown and pos == 0 and MARKER_RE.match(t) and (i > 0 or starts_line or RULE_RE.match(t)):
                     # backslash protection of a line-leading marker: before the word, before its final . or ),
                     # before every character of a rule/underline word, or before every character of a fence run
                     run = len(t) - len(t.lstrip(t[0])) if t[0] in "`~" else 0
@@ -106,12 +109,13 @@ def scan_lines(bodies: list[str], tokens: list[str], markdown: bool) -> tuple[li
 
 
 def check_wrapped(lines: list[str], tokens: list[str], width: int, ii: str, si: str, col0_extra: int, markdown: bool,
-                  maximal: bool, what: str, rest_extra: int = 0) -> Failure | None:
+                  maximal: bool, what: str, rest_extra: int = 0, starts_line: bool = False) -> Failure | None:
     """lines: output lines with indents. col0_extra / rest_extra: extra column offsets that are counted but not
     emitted (text already on the first line; subsequent_offset of wrap_paragraph_lines)."""
     _domain_tokens(tokens)
     if not tokens:
-        if [l for l in lines if l.strip()]:
+        # (an empty hard-break segment is its indent / container prefix alone)
+        if [l for l in lines if l.strip() and l != ii]:
             return Failure("lossless", f"{what}: no tokens in, output {lines!r}")
         return None
     bodies = []
@@ -120,7 +124,7 @@ def check_wrapped(lines: list[str], tokens: list[str], width: int, ii: str, si: 
         if not ln.startswith(ind):
             return Failure("indent", f"{what}: line {i} {ln!r} lacks indent {ind!r}; all lines {lines!r}")
         bodies.append(ln[len(ind):])
-    rows, why = scan_lines(bodies, tokens, markdown)
+    rows, why = scan_lines(bodies, tokens, markdown, starts_line)
     if rows is None:
         return Failure("lossless", f"{what}: {why}; tokens={tokens!r} lines={lines!r}")
     if width <= 0:
@@ -209,8 +213,9 @@ def check_case(case: dict, note: Note) -> Failure | None:
             return Failure("hard-break-segments", f"{kind}: {len(segs)} hard-break segments in, {len(out_segs)} out: in={text!r} out={res!r}")
         for j, (s, o) in enumerate(zip(segs, out_segs)):
             lines = o.split("\n")
+            # the first word after a hard break starts a line: it may carry a protecting backslash like any wrapped line start
             f = check_wrapped(lines, s, width, ii if j == 0 else si, si, 0, True, kind == "lw",
-                              f"{'line_wrap_to_width' if kind == 'lw' else 'line_wrap_by_sentence'}(w={width}) segment {j} of {text!r}")
+                              f"{'line_wrap_to_width' if kind == 'lw' else 'line_wrap_by_sentence'}(w={width}) segment {j} of {text!r}", starts_line=j > 0)
             if f:
                 return f
         return None
